@@ -180,6 +180,16 @@ EXT6={
  "C19":" First-segment alphabet with the digits 2 and 0 (escape look-alikes); the declared tag's annotation varies (ordinary, '/...', '@k'): a rejection the ordinary annotation does not cause is a violation.",
  "C20":" Unused macros holding declarations or pasting a fresh macro add nothing.",
 }
+EXT7={
+ "C01":" Junk after the file name of an INCLUDE that stands in an included file (depth 2, 3).",
+ "C02":" Bodies still open where the file ends, under every line-end assignment.",
+ "C03":" 2..3 regex types that do not compile, referred to by one type.",
+ "C04":" Headers given as a reference to an object type, in requests and responses.",
+ "C09":" ALL sequences of 1..4 (5) calls over {ValidateJAPI, ToJson, ToJsonIndent, Title} on one JApi object against a fresh validated object.",
+ "C12":" An array of three item schemas whose last one inherits.",
+ "C14":" A parameter lexeme that begins with a quote is exactly one quoted value.",
+ "C20":" Fresh methods on case-twin paths derived from the document's own parameterised paths.",
+}
 for k,v in EXT.items():
     CHECKS[k]["text"]+=v
 for k,v in EXT2.items():
@@ -191,6 +201,8 @@ for k,v in EXT4.items():
 for k,v in EXT5.items():
     CHECKS[k]["text"]+=v
 for k,v in EXT6.items():
+    CHECKS[k]["text"]+=v
+for k,v in EXT7.items():
     CHECKS[k]["text"]+=v
 ENGINES=[
  {"name":"E-REFCAT","path":"internal/checks/refcat.go","serves_properties":[],"kind_free_text":"reference compiler (real lexemes -> reference resolver of C06 -> PASTE substitution -> expected interactions, tags, path variables, names, faults) run over fixtures, pool selections and, through a tap, the documents of the generators of C04 / C13 / C19; serves C04 C06 C07 C11 C13 C19 next to their own engines"},
